@@ -35,6 +35,14 @@ claim("C05", "must-pass-through pairing rules (deploy/close, Add/go/Done/Wait, c
       "closers cancel then wait on every return, Execute registers terminate-all, contexts are released, sub-runs and deployments get the step context (C05.R1,R3-R7; R2 by path exploration). "
       "That deployer.Plugin.Close really stops a container and goroutines inside dependencies are not decided.", NOTE)
 
+claim("C02", "walker-agreement (type-switch case sets), loop must-pass-through, lockset and value-flow rules",
+      "Decides that every expression kind evaluated at run time is wired at prepare time, that every dependency / lifecycle ordering / one-of option becomes a DAG connection on every loop iteration, "
+      "that every input field and output is walked with the value later evaluated, that resolve-publish-notify is one ordered critical section, that DAG/data-model helpers run under the run lock, "
+      "and that the step receives the validated resolution of its own node (C02.R1-R6). Completeness of expressions.Dependencies, dgraph readiness and value equality are not decided.", NOTE)
+claim("C03", "dominance and value-flow rules on the notify loop and the return sites of Execute",
+      "Decides necessary conditions: unresolvable nodes produce neither output nor stage input; returned id and data come from one output node; alternatives of a produced stage output are marked unresolvable; "
+      "exactly one validated success return; the no-output-possible error is raised and cancels (C03.R1-R5). Which output wins and equality with a reference evaluation are not decided.", NOTE)
+
 ALL = ["C%02d" % i for i in range(1, 21)]
 for pid in ALL:
     if pid not in P:
